@@ -108,7 +108,9 @@ def validate_path(chk, cat, ents, nm, s, r, contributed, pats, names, label):
 
 _FAMILY_DONE = set()
 FILE_NAMES = ['a.sol', 'A.SOL', 'b.Sol', 'a.t.sol', 'A.T.Sol', 'x.T.SOL', '.sol', '.a.sol', '..sol', 'a.b.sol', '.t.ſol.sol', 'ſ.sol', 'sol', 'a.txt', '日a.md', 'メモb.txt',
-              'a.sol ', ' a.sol', 'a.solx', 'a.sol.txt', 't.sol', 'at.sol', 'a.tt.sol']
+              'a.sol ', ' a.sol', 'a.solx', 'a.sol.txt', 't.sol', 'at.sol', 'a.tt.sol',
+              # near misses of the test-file marker: one other character where the marker has its second dot, nothing there, the marker cut short
+              'Vault.t_sol.sol', 'Pool.tmsol.sol', 'a.t-sol.sol', 'b.tsol.sol', 'c.t.so.sol', 'd.t.sol', 'e.txsol', 'f_t.sol', 'g.t..sol']
 DIR_NAMES = ['d', 'x.t.sol', '.hidden', 'T.SOL', 'a.sol', 'sp ace', 'ünï', '.t.ſol']
 
 
